@@ -11,6 +11,8 @@
 From Coq Require Import ZArith List.
 From PV.Spec Require Import FsSpec FsCases.
 From PV.Proofs Require Import FsSpecProofs LinksProofs.
+From PV.Model Require AccountLinks.
+From PV.Proofs Require AccountLinksLemmas AccountLinksPurge AccountLinksInv AccountLinksProofs.
 Import ListNotations.
 
 Theorem C07_add_link_adds_one_reference : forall s n0 p0 n p rr s' b,
@@ -71,3 +73,83 @@ Example C07_nonvacuous :
     [AddFp 7 (Some ([1], 0)) (Some [2]) None; AddLink (SrcPath NsIso [1]) NsIso [3] 0; RmLink NsIso [1];
      RmLink NsJoliet [2]; RmLink NsIso [3]]%Z = [3; 3; 3; 3; 0]%Z.
 Proof. vm_compute. reflexivity. Qed.
+
+(* ---- the mechanism behind "content lives exactly as long as its last name": Model/AccountLinks.v ------
+   The space accounting state machine of Model/Account.v extended with hard links inside the ISO9660
+   namespace (add_hard_link / rm_hard_link / rm_file over shared inodes, the inode table in creation
+   order, file data laid out once per inode), tied to /repo by accountlinksleaf.py after EVERY operation.
+   For every history of the six operations, accepted or refused: *)
+Section AccountLinksStatements.
+Import AccountLinks AccountLinksLemmas AccountLinksPurge AccountLinksInv.
+Local Open Scope Z_scope.
+
+Theorem C07_space_exact : forall ops,
+  AccountLinks.lspace (AccountLinks.lrun AccountLinks.linit ops) =
+  AccountLinks.llayout_end (AccountLinks.lrun AccountLinks.linit ops).
+Proof. exact AccountLinksProofs.C07_space_exact. Qed.
+
+Theorem C07_stored_once : forall s,
+  NoDup (AccountLinks.laid_out s) /\
+  forall i, In i (AccountLinks.laid_out s) <->
+            0 < AccountLinks.lrefcount i (AccountLinks.lroot s) /\ AccountLinks.len_of i (AccountLinks.linodes s) <> 0.
+Proof. exact AccountLinksProofs.C07_stored_once. Qed.
+
+Theorem C07_inode_table_is_the_referenced_set : forall ops,
+  let s := AccountLinks.lrun AccountLinks.linit ops in
+  NoDup (AccountLinksLemmas.ids (AccountLinks.linodes s)) /\
+  forall i, In i (AccountLinksLemmas.ids (AccountLinks.linodes s)) <-> 0 < AccountLinks.lrefcount i (AccountLinks.lroot s).
+Proof. exact AccountLinksProofs.C07_inode_table_is_the_referenced_set. Qed.
+
+Theorem C07_add_link_shares_the_content : forall s src dirp nm s',
+  AccountLinks.lstep s (AccountLinks.LAddLink src dirp nm) = (s', true) ->
+  AccountLinks.linodes s' = AccountLinks.linodes s /\
+  exists g, (g = 0 \/ g = 1) /\ AccountLinks.lspace s' = AccountLinks.lspace s + g.
+Proof. exact AccountLinksProofs.C07_add_link_shares_the_content. Qed.
+
+Theorem C07_refused_link_edit_changes_nothing : forall s o s', AccountLinks.lstep s o = (s', false) -> s' = s.
+Proof. exact AccountLinksProofs.lrefused_unchanged. Qed.
+
+
+Theorem C07_content_released_at_last_name_in_the_accounting : forall s dirp nm dn dl kids k cn i st s',
+  LInv s ->
+  lsubtree dirp (lroot s) = Some (LDir dn dl kids) ->
+  llookup nm kids = Some (k, LFile cn i st) ->            (* the name points to inode i *)
+  lstep s (LRmLink dirp nm) = (s', true) ->
+  let len := len_of i (linodes s) in
+  (* one reference less *)
+  lrefcount i (lroot s') = lrefcount i (lroot s) - 1 /\
+  (* its blocks are in the layout iff some record still references it (and it is not empty) *)
+  (In i (laid_out s') <-> 0 < lrefcount i (lroot s') /\ len <> 0) /\
+  (In i (ids (linodes s')) <-> 0 < lrefcount i (lroot s')) /\
+  (0 < lrefcount i (lroot s') -> len_of i (linodes s') = len) /\
+  (* space: the directory may give back one block; the data blocks are released iff this was
+     the last name *)
+  (exists sh, (sh = 0 \/ sh = 1) /\
+     lspace s' = lspace s - sh - (if lrefcount i (lroot s') =? 0 then blocks_of len else 0)) /\
+  (* nothing else changes *)
+  (forall j, j <> i -> lrefcount j (lroot s') = lrefcount j (lroot s) /\
+                       len_of j (linodes s') = len_of j (linodes s) /\
+                       (In j (laid_out s') <-> In j (laid_out s))).
+Proof. exact AccountLinksProofs.C07_content_released_exactly_at_last_name. Qed.
+
+Theorem C07_rm_file_exact_in_the_accounting : forall s dirp nm dn dl kids k cn i st s',
+  LInv s ->
+  lsubtree dirp (lroot s) = Some (LDir dn dl kids) ->
+  llookup nm kids = Some (k, LFile cn i st) ->
+  lstep s (LRmFile dirp nm) = (s', true) ->
+  (* the file records left are those that were there and do not point to inode i, in the same
+     directories and in the same order; the directories are the same *)
+  lrecords [] (lroot s') = filter (notrec i) (lrecords [] (lroot s)) /\
+  ldirs [] (lroot s') = ldirs [] (lroot s) /\
+  (* the content is gone: no reference, not in self.inodes, no extents *)
+  lrefcount i (lroot s') = 0 /\ ~ In i (ids (linodes s')) /\ ~ In i (laid_out s') /\
+  (* its data blocks are released once, together with the directory blocks freed *)
+  lspace s' = lspace s - (ltotal lw_dblk (lroot s) - ltotal lw_dblk (lroot s'))
+              - blocks_of (len_of i (linodes s)) /\
+  (* every other content is untouched *)
+  (forall j, j <> i -> lrefcount j (lroot s') = lrefcount j (lroot s) /\
+                       len_of j (linodes s') = len_of j (linodes s) /\
+                       (In j (laid_out s') <-> In j (laid_out s))).
+Proof. exact AccountLinksProofs.C07_rm_file_removes_exactly_the_names_of_the_content. Qed.
+
+End AccountLinksStatements.
